@@ -567,12 +567,22 @@ func RunTLAPM(env *Env, module string, timeout time.Duration) int {
 		}
 		_ = ioutil.WriteFile(filepath.Join(dir, filepath.Base(s)), b, 0o644)
 	}
-	ctx, cancel := context.WithTimeout(context.Background(), timeout)
-	defer cancel()
-	cmd := exec.CommandContext(ctx, "tlapm", "--threads", "8", "--cleanfp", module+".tla")
-	cmd.Dir = dir
-	out, err := cmd.CombinedOutput()
-	m := reProved.FindSubmatch(out)
+	// the back-end provers run under time limits: on a loaded machine an obligation can time out,
+	// so the limits are stretched and a failed attempt is repeated with longer ones
+	var out []byte
+	var err error
+	var m [][]byte
+	for _, stretch := range []string{"3", "10", "30"} {
+		ctx, cancel := context.WithTimeout(context.Background(), timeout)
+		cmd := exec.CommandContext(ctx, "tlapm", "--threads", "4", "--stretch", stretch, "--cleanfp", module+".tla")
+		cmd.Dir = dir
+		out, err = cmd.CombinedOutput()
+		cancel()
+		m = reProved.FindSubmatch(out)
+		if err == nil && m != nil {
+			break
+		}
+	}
 	if err != nil || m == nil {
 		s := string(out)
 		if len(s) > 1500 {
@@ -582,7 +592,7 @@ func RunTLAPM(env *Env, module string, timeout time.Duration) int {
 	}
 	n, _ := strconv.Atoi(string(m[1]))
 	tlcMu.Lock()
-	tlcTotals.cmds = append(tlcTotals.cmds, "tlapm --threads 8 --cleanfp "+module+".tla")
+	tlcTotals.cmds = append(tlcTotals.cmds, "tlapm --threads 4 --stretch 3 --cleanfp "+module+".tla")
 	tlcMu.Unlock()
 	return n
 }
